@@ -46,6 +46,10 @@ def compress_cases(ctx, n, nsmall, nbig=0, maxsize=None):
         if i >= len(params):
             nn, ratio, K = rnd.choice([500000, 700000, 900000]), rnd.uniform(0.5, 0.66), rnd.choice([25, 30, 40, 60])
         cs.append(dict(fam='bwt-designed', gen=('bwt', nn, ratio, K, rnd.randrange(1 << 30)), data=None, level=9, ultra=False, w=2))
+    for i in range(max(12, n // 15)):
+        level = rnd.choice([1, 1, 2, 9])
+        size = rnd.choice([8, 24, 40, 1000, 80000, 100000, 150000, 250000, 2 * level * 100000 + 17])
+        cs.append(dict(fam='runs4', data=gen.runs4(rnd, min(size, 1500000)), level=level, ultra=rnd.random() < 0.3, w=rnd.choice([1, 2, 4])))
     for i in range(nbig):
         # incompressible level-9 blocks: ~18001 coding groups each
         d = rnd.randbytes(900000 + rnd.choice([0, 1, 50, 100000]))
